@@ -39,6 +39,8 @@ structure Env where
   trace   : List (String × List Arg)
   answers : Nat → String → Int × Int
   ifaces  : List String
+  /-- the field holds no object at all (`w.f == nil`) -/
+  isNil   : Bool := false
 
 instance : Inhabited Env := ⟨{ trace := [], answers := fun _ _ => (0, 0), ifaces := [] }⟩
 
@@ -67,6 +69,11 @@ def mapGet [BEq κ] [Inhabited ν] (m : List (κ × ν)) (k : κ) : ν :=
   match m.find? (fun kv => kv.1 == k) with
   | some kv => kv.2
   | none => default
+
+/-- `m[k] = v` on a map: the entry of `k` replaced, a new entry when there was none -/
+def mapSet [BEq κ] : List (κ × ν) → κ → ν → List (κ × ν)
+  | [], k, v => [(k, v)]
+  | (k', v') :: r, k, v => if k' == k then (k, v) :: r else (k', v') :: mapSet r k v
 
 /-- `xs[i]`. NOT represented: Go panics when `i` is out of range (no-panic clauses are the correspondence check's to
 establish, not the code-level tie's); here the zero value comes out -/
